@@ -7,6 +7,7 @@ import RigModel.Lemmas.C02Term
 import RigModel.Lemmas.C02Complete
 import RigModel.Lemmas.C02Init
 import RigModel.Lemmas.C02SA
+import RigModel.Lemmas.C02Doc
 set_option linter.unusedSimpArgs false
 set_option linter.unusedVariables false
 
@@ -60,8 +61,23 @@ private theorem inv_after_prepare {vr' : VR} {cs' : List Constraint} {m m' : Mac
     funext c i; omega
   rw [← e]; exact this
 
-/-- common end of the three proofs: a loop result on the merged problem expands to a feasible
-placement of the caller's problem -/
+/-- common end of the proofs: a loop result on the merged problem expands (the expansion cannot
+fail) to a feasible placement of the caller's problem -/
+private theorem finish_ex {vr vr' : VR} {cs cs' : List Constraint} {m m' : Machine} {subs : List (List Vtx)}
+    {fixed pf : Placement} (O : MergeOut m vr cs [] vr' cs' subs) (hcons : LocConsistent cs')
+    (hprep : prepareLoop vr' cs' m [] = .ok (m', fixed))
+    (mf : Machine) (I : Inv vr' m (fun c i => reserved cs' c i) mf pf)
+    (hmono : ∀ v c, aget fixed v = some c → aget pf v = some c)
+    (hall : ∀ v ∈ keys vr', (aget pf v).isSome) :
+    ∃ p, finalise subs pf = .ok p ∧ Feasible vr cs m p := by
+  have hloc : ∀ v c, Constraint.loc v c ∈ cs' → aget pf v = some c :=
+    fun v c hvc => hmono v c (prepare_loc hprep hcons v c hvc)
+  have hst : SameTrivial cs' := sameTrivial_of_inv (by simpa using O.inv)
+  have F := feasible_of_inv I hall hloc hst
+  obtain ⟨p0, hp0, F0⟩ := O.back pf F
+  simp only [List.length_nil] at hp0
+  exact ⟨p0, hp0, F0⟩
+
 private theorem finish {vr vr' : VR} {cs cs' : List Constraint} {m m' : Machine} {subs : List (List Vtx)}
     {fixed pf p : Placement} (O : MergeOut m vr cs [] vr' cs' subs) (hcons : LocConsistent cs')
     (hprep : prepareLoop vr' cs' m [] = .ok (m', fixed))
@@ -69,12 +85,7 @@ private theorem finish {vr vr' : VR} {cs cs' : List Constraint} {m m' : Machine}
     (hmono : ∀ v c, aget fixed v = some c → aget pf v = some c)
     (hall : ∀ v ∈ keys vr', (aget pf v).isSome)
     (hfin : finalise subs pf = .ok p) : Feasible vr cs m p := by
-  have hloc : ∀ v c, Constraint.loc v c ∈ cs' → aget pf v = some c :=
-    fun v c hvc => hmono v c (prepare_loc hprep hcons v c hvc)
-  have hst : SameTrivial cs' := sameTrivial_of_inv (by simpa using O.inv)
-  have F := feasible_of_inv I hall hloc hst
-  obtain ⟨p0, hp0, F0⟩ := O.back pf F
-  simp only [finalise, List.length_nil] at hfin hp0
+  obtain ⟨p0, hp0, F0⟩ := finish_ex O hcons hprep mf I hmono hall
   rw [hp0] at hfin; injection hfin with e; subst e; exact F0
 
 /-- **Sequential placer (hence Hilbert, RCM, breadth-first).**  For EVERY vertex order that
@@ -304,6 +315,191 @@ theorem saStart_inv (vr : VR) (m m2 : Machine) (rsv : Chip → Nat → Int) (p0 
     (l2v : List (Chip × List Vtx)) (I : Inv vr m rsv m2 p0) (h : mkL2v m2 p0 = .ok l2v) :
     SAInv vr fixed p0 m2 (fun c i => dem (cap m2 c) i + load vr p0 c i) { m := m2, p := p0, l2v := l2v } :=
   SAInv.start fixed I h
+
+/-! ### only the documented errors -/
+
+/-- the documented domain of the placers, second part: constraints mention only vertices of
+`vertices_resources`; every resource exception lists the machine's resources and describes a working
+chip; reservations name a resource of the machine and, when per-chip, a working chip -/
+structure InDomain (vr : VR) (cs : List Constraint) (m : Machine) : Prop where
+  known : Known vr cs
+  excLen : ∀ e ∈ m.exc, e.2.length = m.res.length
+  excOk : ∀ e ∈ m.exc, m.ok e.1 = true
+  resIdx : ∀ r amt at_, Constraint.reserve r amt at_ ∈ cs → r < m.res.length
+  resOk : ∀ r amt c, Constraint.reserve r amt (some c) ∈ cs → m.ok c = true
+
+private theorem prefix_doc {vr : VR} {cs : List Constraint} {m : Machine} (dom : InDomain vr cs m) :
+    (∀ e, applySame vr cs ≠ .error e) ∧
+    ∀ vr' cs' subs, applySame vr cs = .ok (vr', cs', subs) → Known vr' cs' ∧
+      ∀ p e, prepareLoop vr' cs' m p = .error e → e = .insufficient ∨ e = .invalidConstraint := by
+  obtain ⟨⟨out, hout⟩, h2⟩ := applySameLoop_dom cs.length 0 vr cs [] dom.known
+  refine ⟨fun e he => ?_, fun vr' cs' subs hA => ?_⟩
+  · unfold applySame at he; rw [hout] at he; simp at he
+  · obtain ⟨k, hr⟩ := h2 vr' cs' subs hA
+    refine ⟨k, fun p e he => ?_⟩
+    refine prepareLoop_doc (n := m.res.length) cs' m p k ⟨rfl, fun x hx => ⟨dom.excLen x hx, dom.excOk x hx⟩⟩ ?_ e he
+    intro r a at_ hmem
+    have hmem' := hr r a at_ hmem
+    exact ⟨dom.resIdx r a at_ hmem', fun c hc => by subst hc; exact dom.resOk r a c hmem'⟩
+
+/-- **Sequential placer: only the documented errors.**  Under the documented domain the sequential
+placer (default vertex order, EVERY chip order) fails with `InsufficientResourceError` or
+`InvalidConstraintError` only - never KeyError / IndexError / ValueError, never by running out of
+scan steps.  For a custom vertex order the statement assumes that the rewrite of the order for the
+merged vertices succeeds and yields the vertices of the merged problem (true for permutations of
+the vertices; validated by correspondence, not proved). -/
+theorem seqPlace_documented (vr : VR) (cs : List Constraint) (m : Machine)
+    (vertexOrder : Option (List Vtx)) (chipOrder : Option (List Chip)) (e : Err)
+    (wf : WF vr cs m) (hcons : Consistent vr cs) (dom : InDomain vr cs m)
+    (hvo : ∀ vo, vertexOrder = some vo → ∀ vr' cs' subs, applySame vr cs = .ok (vr', cs', subs) →
+      ∃ order, substOrder 0 subs vo = .ok order ∧ (∀ v ∈ order, v ∈ keys vr') ∧ ∀ v ∈ keys vr', v ∈ order)
+    (h : seqPlace vr cs m vertexOrder chipOrder = .error e) : e = .insufficient ∨ e = .invalidConstraint := by
+  obtain ⟨d1, d2⟩ := prefix_doc dom
+  unfold seqPlace at h
+  split at h
+  · simp at h
+  · cases hA : applySame vr cs with
+    | error e' => exact absurd hA (d1 e')
+    | ok r =>
+      obtain ⟨vr', cs', subs⟩ := r
+      obtain ⟨hk, d3⟩ := d2 _ _ _ hA
+      have O := applySame_spec m wf.nodup wf.original hA
+      have hn' : (keys vr').Nodup := O.inv.nodup
+      have hnn' := O.nonneg wf.nonnegVR
+      cases hP : prepareLoop vr' cs' m [] with
+      | error e' =>
+        simp only [hA, hP, bind, Except.bind] at h
+        injection h with h; subst h; exact d3 _ _ hP
+      | ok r2 =>
+        obtain ⟨m', fixed⟩ := r2
+        have I0 := inv_after_prepare hn' hnn' wf.nonnegCap hP
+        have core : ∀ order, (∀ v ∈ order, v ∈ keys vr') → (∀ v ∈ keys vr', v ∈ order) →
+            (if ((chipOrder.getD m'.chips).filter m'.ok).isEmpty = true then (Except.error Err.insufficient : M Placement)
+             else (seqLoop vr' ((chipOrder.getD m'.chips).filter m'.ok) order 0 m' fixed).bind (finalise subs))
+              = .error e → e = .insufficient ∨ e = .invalidConstraint := by
+          intro order ho1 ho2 h
+          split at h
+          · injection h with h; exact Or.inl h.symm
+          · rename_i hne
+            have hne' : (chipOrder.getD m'.chips).filter m'.ok ≠ [] := by
+              intro e; rw [e] at hne; simp at hne
+            cases hL : seqLoop vr' ((chipOrder.getD m'.chips).filter m'.ok) order 0 m' fixed with
+            | error e' =>
+              simp only [hL, Except.bind] at h
+              injection h with h; subst h
+              exact Or.inl (seqLoop_doc vr' _ hne' _ _ _ _ _ ho1 (fun c hc => (List.mem_filter.1 hc).2) hL)
+            | ok pf =>
+              simp only [hL, Except.bind] at h
+              obtain ⟨⟨mf, If⟩, hmono, hall⟩ := seqLoop_inv hn' hnn' _ _ _ _ _ _ I0 hL
+              obtain ⟨p, hp, _⟩ := finish_ex O (hcons _ _ _ hA) hP mf If hmono (fun v hv => hall v (ho2 v hv))
+              rw [hp] at h; simp at h
+        cases vertexOrder with
+        | none =>
+          simp only [hA, hP, bind, Except.bind, pure, Except.pure] at h
+          exact core (keys vr') (fun v hv => hv) (fun v hv => hv) h
+        | some vo =>
+          obtain ⟨order, hS, ho1, ho2⟩ := hvo vo rfl _ _ _ hA
+          simp only [hA, hP, hS, bind, Except.bind] at h
+          exact core order ho1 ho2 h
+
+/-- **Random placer: only the documented errors**, for EVERY sequence of draws (`BadOracle` is the
+model's answer to a sequence of draws the RNG cannot produce, not an exception of the code). -/
+theorem randPlace_documented (vr : VR) (cs : List Constraint) (m : Machine) (picks : List Chip) (e : Err)
+    (wf : WF vr cs m) (hcons : Consistent vr cs) (dom : InDomain vr cs m)
+    (h : randPlace vr cs m picks = .error e) :
+    e = .insufficient ∨ e = .invalidConstraint ∨ e = .badOracle := by
+  obtain ⟨d1, d2⟩ := prefix_doc dom
+  unfold randPlace at h
+  cases hA : applySame vr cs with
+  | error e' => exact absurd hA (d1 e')
+  | ok r =>
+    obtain ⟨vr', cs', subs⟩ := r
+    obtain ⟨hk, d3⟩ := d2 _ _ _ hA
+    have O := applySame_spec m wf.nodup wf.original hA
+    have hn' : (keys vr').Nodup := O.inv.nodup
+    have hnn' := O.nonneg wf.nonnegVR
+    cases hP : prepareLoop vr' cs' m [] with
+    | error e' =>
+      simp only [hA, hP, bind, Except.bind] at h
+      injection h with h; subst h
+      rcases d3 _ _ hP with h | h
+      · exact Or.inl h
+      · exact Or.inr (Or.inl h)
+    | ok r2 =>
+      obtain ⟨m', fixed⟩ := r2
+      have I0 := inv_after_prepare hn' hnn' wf.nonnegCap hP
+      simp only [hA, hP, bind, Except.bind] at h
+      split at h
+      · rename_i e' hL
+        injection h with h; subst h
+        rcases randLoop_doc vr' _ _ _ _ _ _ (fun v hv => (List.mem_filter.1 hv).1)
+          (fun c hc => (mem_chips_iff m' c).1 hc) hL with h | h
+        · exact Or.inl h
+        · exact Or.inr (Or.inr h)
+      · rename_i pf hL
+        have hfree : ∀ v ∈ (keys vr').filter (fun v => !(aget fixed v).isSome), aget fixed v = none := by
+          intro v hv
+          simp only [List.mem_filter] at hv
+          cases hx : aget fixed v with
+          | none => rfl
+          | some x => simp [hx] at hv
+        obtain ⟨⟨mf, If⟩, hmono, hall⟩ :=
+          randLoop_inv hn' hnn' _ _ _ _ _ _ I0 hfree (List.Nodup.sublist List.filter_sublist hn') hL
+        obtain ⟨p, hp, _⟩ := finish_ex O (hcons _ _ _ hA) hP mf If hmono (fun v hv => by
+          cases hx : aget fixed v with
+          | none => exact hall v (by simp [List.mem_filter, hv, hx])
+          | some x => simp [hmono v x hx])
+        rw [hp] at h; simp at h
+
+/-- **Annealer, initial placement / trivial-solution path: only the documented errors**, for EVERY
+outcome of the two shuffles (`locs` a list of working chips, `vs` a list of the movable vertices). -/
+theorem saPlace_initial_documented (vr : VR) (cs : List Constraint) (m : Machine) (locs : List Chip)
+    (vs : List Vtx) (e : Err)
+    (wf : WF vr cs m) (hcons : Consistent vr cs) (dom : InDomain vr cs m)
+    (hlocs : ∀ c ∈ locs, m.ok c = true)
+    (hvs : ∀ vr' cs' subs m' fixed, applySame vr cs = .ok (vr', cs', subs) →
+      prepareLoop vr' cs' m [] = .ok (m', fixed) →
+      (∀ v ∈ keys vr', v ∈ vs ∨ v ∈ keys fixed) ∧ ∀ v ∈ vs, v ∈ keys vr')
+    (h : saPlace vr cs m locs vs none = .error e) : e = .insufficient ∨ e = .invalidConstraint := by
+  obtain ⟨d1, d2⟩ := prefix_doc dom
+  unfold saPlace at h
+  split at h
+  · simp at h
+  · cases hA : applySame vr cs with
+    | error e' => exact absurd hA (d1 e')
+    | ok r =>
+      obtain ⟨vr', cs', subs⟩ := r
+      obtain ⟨hk, d3⟩ := d2 _ _ _ hA
+      have O := applySame_spec m wf.nodup wf.original hA
+      have hn' : (keys vr').Nodup := O.inv.nodup
+      have hnn' := O.nonneg wf.nonnegVR
+      cases hP : prepareLoop vr' cs' m [] with
+      | error e' =>
+        simp only [hA, hP, bind, Except.bind] at h
+        injection h with h; subst h; exact d3 _ _ hP
+      | ok r2 =>
+        obtain ⟨m', fixed⟩ := r2
+        have I0 := inv_after_prepare hn' hnn' wf.nonnegCap hP
+        obtain ⟨hvs1, hvs2⟩ := hvs _ _ _ _ _ hA hP
+        cases hI : initialPlacement vr' m' locs vs with
+        | error e' =>
+          simp only [hA, hP, hI, bind, Except.bind] at h
+          injection h with h; subst h
+          cases locs with
+          | nil => simp [initialPlacement] at hI; exact Or.inl hI.symm
+          | cons c0 rest =>
+            simp only [initialPlacement] at hI
+            have hok' : ∀ c ∈ c0 :: rest, m'.ok c = true := fun c hc => by rw [I0.ok_eq]; exact hlocs c hc
+            exact Or.inl (initLoop_doc vr' vs c0 rest m' [] _ hvs2 (hok' c0 (by simp))
+              (fun c hc => hok' c (by simp [hc])) hI)
+        | ok r3 =>
+          obtain ⟨m'', init⟩ := r3
+          obtain ⟨I, hmono, hall⟩ := sa_initial_facts hn' hnn' wf.nonnegCap hP hI hvs1
+          simp only [hA, hP, hI, bind, Except.bind, pure, Except.pure] at h
+          have hp0 : List.foldl (fun q (vc : Vtx × Chip) => aset q vc.1 vc.2) init fixed = mergeP init fixed := rfl
+          rw [hp0] at h
+          obtain ⟨p, hp, _⟩ := finish_ex O (hcons _ _ _ hA) hP m'' I hmono hall
+          rw [hp] at h; simp at h
 
 /-- **The oracle is the specification.**  The decidable check the harness runs on every placement
 returned by the implementation is equivalent to `Feasible`. -/
@@ -583,6 +779,31 @@ example : Feasible exVR exCS exM [(o 2, (0, 0)), (o 0, (1, 0)), (o 1, (1, 0))] :
       simp [keys] at hv ⊢
       rcases hv with rfl | rfl <;> simp)
     (by rfl)
+
+/-- the example problem lies in the domain of the only-documented-errors theorems -/
+private theorem exDom : InDomain exVR exCS exM where
+  known := by
+    intro c hc
+    simp [exCS] at hc
+    rcases hc with rfl | rfl | rfl | rfl
+    · intro v hv; simp at hv; rcases hv with rfl | rfl <;> simp [exVR, keys]
+    · simp [CKnown, exVR, keys]
+    · trivial
+    · simp [CKnown, exVR, keys]
+  excLen := by intro e he; simp [exM] at he; subst he; rfl
+  excOk := by intro e he; simp [exM] at he; subst he; rfl
+  resIdx := by
+    intro r amt at_ h; simp [exCS] at h; obtain ⟨rfl, _, _⟩ := h; simp [exM]
+  resOk := by intro r amt c h; simp [exCS] at h
+
+/-- the hypotheses of the only-documented-errors theorems are satisfiable together -/
+example (co : Option (List Chip)) (e : Err) (h : seqPlace exVR exCS exM none co = .error e) :
+    e = .insufficient ∨ e = .invalidConstraint :=
+  seqPlace_documented exVR exCS exM none co e exWF exCons exDom (by intro vo h; simp at h) h
+
+example (picks : List Chip) (e : Err) (h : randPlace exVR exCS exM picks = .error e) :
+    e = .insufficient ∨ e = .invalidConstraint ∨ e = .badOracle :=
+  randPlace_documented exVR exCS exM picks e exWF exCons exDom h
 
 private theorem okEq {α : Type} [DecidableEq α] (x : M α) (a : α)
     (h : (match x with | .ok r => decide (r = a) | .error _ => false) = true) : x = .ok a := by
